@@ -109,6 +109,20 @@ impl Params {
         }
     }
 
+    /// Conflict-heavy with many single-literal facts that are discovered lazily (exclusions,
+    /// Unknown dependencies, requirements without candidates, self-excluding constrains).
+    pub fn assertion_heavy() -> Self {
+        Params {
+            p_excluded: 150,
+            p_unknown: 80,
+            p_missing: 40,
+            p_empty_pkg: 30,
+            p_self_ref: 40,
+            vs_w: [5, 1, 4, 2, 1],
+            ..Params::conflict_heavy()
+        }
+    }
+
     /// Wide fan-out (C11): many requirements on distinct packages.
     pub fn fanout() -> Self {
         Params {
